@@ -45,7 +45,7 @@ var prop = &vt.Prop[Case]{
 	Property: property,
 	Kind:     "c02-program",
 	Gen: func(t *rapid.T) Case {
-		return Case{Prog: wprog.Gen(wprog.Opts{AllowSparse: true}).Draw(t, "prog")}
+		return Case{Prog: wprog.Gen(wprog.Opts{AllowSparse: true, AllowBulk: true}).Draw(t, "prog")}
 	},
 	Check: checkCase,
 	Classify: func(c *Case) (bool, []string) {
